@@ -24,20 +24,6 @@ namespace {
 enum Cls { ZP_OPS, ZP_SHARED, COH_ZP, Z2_ELEM, Z2_OPS };
 const char* const kClsName[] = {"Zp_field_operators", "Shared_Zp_field_element", "Field_Zp", "Z2_field_element", "Z2_field_operators"};
 
-// get_value overloads for signed machine integers (Zp_field_operators, Z2_field_operators)
-template <class Op>
-void ops_signed_get_value(Rep& R, Op& op, i128 P, i128 a) {
-  for_types<false>([&](auto tag) {
-    using I = decltype(tag);
-    if (!std::is_signed_v<I>) return;
-    if (!fits<I>(a, P)) { ++R.n[K_SKIP_TYPE]; return; }
-    note_operand(R, a, P);
-    i128 got = (i128)op.get_value((I)a);
-    C10_CHECK(R, tctr<I>(), got == pmod(a, P), "convert", std::string("form=get_value,type=") + tname<I>() + ",operand=" + opclass(a, P),
-              "get_value(" + zstr(a) + ")=" + zstr(got) + " want " + zstr(pmod(a, P)));
-  });
-}
-
 // ---------------------------------------------------------------------------------------- exhaustive blocks
 struct Block { Cls cls; unsigned p; long a; };
 const unsigned kExhPrimes[] = {2, 3, 5, 7, 11, 13, 17, 19, 23, 29, 31, 37, 41, 43, 47, 53, 59, 61, 67, 71, 73, 79, 83, 89, 97};
@@ -245,8 +231,78 @@ void refuse_case(vh::Case& c) {
   if (n > 3) c.nontrivial(vh::hash_str(desc));
 }
 
+// ---------------------------------------------------------------------------------------- object state
+// scenario 0: a REFUSED characteristic on an object that already has a field: the object must go on working in the field it still
+//             announces (signatures end in ",refused_on_live_object"); scenario 1: valid -> valid re-initialisation;
+// scenario 2 (operator class): move / swap / assignment followed by a use of the moved-to object.
+const unsigned kStatePrimes[] = {3, 5, 7, 13, 31, 101, 251, 257, 1009};
+void state_case(vh::Case& c) {
+  vh::Rng& r = c.rng;
+  const int scenario = (int)(c.k % 3);
+  Cls cls = (Cls)((c.k / 3) % 3);
+  if (scenario == 2) cls = ZP_OPS;
+  const unsigned p1 = kStatePrimes[r.below(9)];
+  unsigned p2; do { p2 = r.chance(1, 2) ? kStatePrimes[r.below(9)] : (unsigned)random_prime_below(r, 2048); } while (p2 == p1);
+  // refused values: 0, 1, (for Field_Zp) negative / above the documented maximum, odd composites above p1 (the table construction
+  // overwrites entries before it notices them), composites below p1 (it shrinks the table)
+  long n;
+  unsigned mode = (unsigned)r.below(8);
+  if (mode == 0) n = (long)r.below(2);
+  else if (mode == 1 && p1 > 7) { do { n = 4 + (long)r.below(p1 - 4); } while (is_prime_naive((uint64_t)n)); }
+  else if (mode == 2 && cls == COH_ZP) n = r.chance(1, 2) ? -(long)r.below(1000) - 1 : 46338 + (long)r.below(100000);
+  else n = (long)odd_composite_above(r, p1);
+  const char* const kScen[] = {"refused_on_live_object", "reinitialisation", "move_swap_assign"};
+  std::string desc = std::string("state scenario=") + kScen[scenario] + " class=" + kClsName[cls] + " p1=" + std::to_string(p1) +
+                     (scenario == 0 ? " refused=" + std::to_string(n) : " p2=" + std::to_string(p2));
+  c.log(desc);
+  Rep R(c, kClsName[cls], "p1=" + std::to_string(p1) + (scenario == 0 ? " refused=" + std::to_string(n) : " p2=" + std::to_string(p2)));
+  c.count(std::string("class.") + kClsName[cls]);
+  c.count(std::string("state.scenario.") + kScen[scenario]);
+  auto red_of = [&](unsigned p) { std::vector<i128> v; for (i128 x : reduced_boundary(p, r, 10)) v.push_back(x); std::sort(v.begin(), v.end()); return v; };
+  auto ops_blk = [&](Zp_field_operators<>& op, unsigned p) { std::vector<i128> red = red_of(p); c.log("block in p=" + std::to_string(p)); zp_ops_block(R, op, p, red, red, red); };
+  auto shared_blk = [&](unsigned p) { std::vector<i128> red = red_of(p); c.log("block in p=" + std::to_string(p)); elem_block<Shared_Zp_field_element<>, false>(R, p, {p}, red, red, {}); };
+  auto coh_blk = [&](Field_Zp& f, unsigned p) { std::vector<i128> red = red_of(p); c.log("block in p=" + std::to_string(p)); coh_zp_block(R, f, p, red, red, red); };
+  if (scenario == 2) {
+    R.sfx = ",after=move_swap_assign";
+    ops_move_swap_assign<Zp_field_operators<> >(p1, p2, [&](Zp_field_operators<>& op, unsigned p) { c.log("set_characteristic " + std::to_string(p)); op.set_characteristic(p); }, ops_blk);
+    finish_block(c, R, desc, r.next());
+    return;
+  }
+  Zp_field_operators<> op;
+  Field_Zp f;
+  auto init = [&](long v) {
+    c.log("init " + std::to_string(v));
+    if (cls == ZP_OPS) op.set_characteristic((unsigned)v); else if (cls == ZP_SHARED) Shared_Zp_field_element<>::initialize((unsigned)v); else f.init((int)v);
+  };
+  auto announced = [&]() -> long { return cls == ZP_OPS ? (long)op.get_characteristic() : cls == ZP_SHARED ? (long)Shared_Zp_field_element<>::get_characteristic() : (long)f.characteristic(); };
+  auto blk = [&](unsigned p) { if (cls == ZP_OPS) ops_blk(op, p); else if (cls == ZP_SHARED) shared_blk(p); else coh_blk(f, p); };
+  init(p1);
+  blk(p1);
+  if (scenario == 1) {
+    R.sfx = ",after=reinitialisation";
+    init(p2);
+    blk(p2);
+    init(p1);
+    blk(p1);
+  } else {
+    const char* why = n < 2 ? "not_greater_than_1" : n > 46337 && cls == COH_ZP ? "above_documented_maximum" : "composite";
+    if (n > 46337 && is_prime_naive((uint64_t)n)) { c.count("skip.prime_above_documented_maximum"); return; }
+    must_refuse(R, "second initialisation with " + std::to_string(n), why, [&] { init(n); });
+    R.sfx = ",refused_on_live_object";
+    // the object still announces a field: it must be the old one (the new one was refused), and it must still be exact in it
+    long got = announced();
+    C10_CHECK(R, K_CHARACTERISTIC, got == (long)p1, "characteristic", "form=announced_after_refusal",
+              "after the refused characteristic " + std::to_string(n) + " the object announces characteristic " + std::to_string(got) + " (it had " + std::to_string(p1) + ")");
+    if (got != (long)p1) return;
+    blk(p1);
+    c.count(n > (long)p1 ? "state.refused_above_live_characteristic" : "state.refused_below_live_characteristic");
+  }
+  finish_block(c, R, desc, r.next());
+}
+
 }  // namespace
 
+VH_CONFIG("zp_state", state_case);
 VH_CONFIG("zp_exhaustive", exh_case);
 VH_CONFIG("zp_boundary", boundary_case);
 VH_CONFIG("zp_random_prime", random_prime_case);
